@@ -196,6 +196,18 @@ def transparency_case(seed, idx, tier):
             raw = b['data']
             plain = os.path.join(tmp, 'x.' + b['ext'])
             write_file(plain, raw)
+        # ---- the path: '.gz' and image extensions may occur earlier in it (directory names, compound file names);
+        # only the end of the name tells the image type, for the plain file and for its compressed copy alike
+        if idx % 2 == 0:
+            sub = os.path.join(tmp, rng.choice(['backup.gz.d', 'discs.gz', 'a.ssd', 'd.dsd.gz', 'flux.hfe', 'm.mmb.gz.old', 'plain']))
+            os.mkdir(sub)
+            base = os.path.basename(plain)
+            stem, ext_ = os.path.splitext(base)
+            base = rng.choice([base, 'game.gz' + ext_, 'a.ssd' + ext_, 'b.ddd.gz' + ext_, stem + '.gz.gz' + ext_])
+            moved = os.path.join(sub, base)
+            os.rename(plain, moved)
+            plain = moved
+            res.seen('path_shapes', os.path.basename(sub) + '/' + base.replace(stem, 'x'))
         # ---- the compressed copy
         level = rng.randrange(10)
         if kind == 'aligned':
